@@ -228,3 +228,163 @@ Lemma saved_outside_loaded_inside_ok :
                     ORead Z Z 1; OLeave Z Z; ORead Z Z 2])
   = [Val Z 2 10%Z; Val Z 1 10%Z; Val Z 2 7%Z].
 Proof. vm_compute. reflexivity. Qed.
+
+(* ---- savedir / loaddir sessions ---------------------------------------------------------------- *)
+Lemma tag_eqb_eq a b : tag_eqb a b = true -> a = b.
+Proof. destruct a, b; cbn; intro H; try discriminate H; f_equal; [now apply Z.eqb_eq | now apply Nat.eqb_eq]. Qed.
+Lemma tag_eqb_refl a : tag_eqb a a = true.
+Proof. destruct a; cbn; [apply Z.eqb_refl | apply Nat.eqb_refl]. Qed.
+
+Section Dir.
+  Variable O : Type.
+  Notation table := (table O).
+  Notation dirs := (dirs O).
+
+  Lemma tget_tset_same (t : table) k x : tget O (tset O t k x) k = Some x.
+  Proof.
+    induction t as [|[k' y] t IH]; cbn; [now rewrite tag_eqb_refl|].
+    destruct (tag_eqb k' k) eqn:E; cbn; rewrite E; [reflexivity | exact IH].
+  Qed.
+  Lemma tget_tset_other (t : table) k x k' : tag_eqb k' k = false -> tget O (tset O t k x) k' = tget O t k'.
+  Proof.
+    intro Hne. induction t as [|[k0 y] t IH]; cbn.
+    - destruct (tag_eqb k k') eqn:E; [|reflexivity]. apply tag_eqb_eq in E. subst. now rewrite tag_eqb_refl in Hne.
+    - destruct (tag_eqb k0 k) eqn:E; cbn.
+      + destruct (tag_eqb k0 k') eqn:E2; [|reflexivity].
+        apply tag_eqb_eq in E, E2. subst. now rewrite tag_eqb_refl in Hne.
+      + destruct (tag_eqb k0 k'); [reflexivity | exact IH].
+  Qed.
+
+  Definition tab_of (s : dirs) (d : nat) : table := match s d with Some t => t | None => [] end.
+
+  (* one successful savedir (either variant): the object is in the table of that directory under the
+     tag reported, every other tag of that directory and every other directory are as before *)
+  Lemma savedir_spec v (s s' : dirs) d tag x k : savedir O v s d tag x = (s', DSaved k) ->
+    s' d = Some (tset O (tab_of s d) k x) /\
+    tget O (tab_of s' d) k = Some x /\
+    (forall k', tag_eqb k' k = false -> tget O (tab_of s' d) k' = tget O (tab_of s d) k') /\
+    (forall d', d' <> d -> s' d' = s d') /\
+    (tag = Some k \/ (tag = None /\ auto_tag O v (tab_of s d) = Some k)).
+  Proof.
+    unfold savedir. fold (tab_of s d).
+    destruct tag as [k0|]; [|destruct (auto_tag O v (tab_of s d)) as [k0|] eqn:Ea]; intro H; try discriminate H;
+      injection H as <- <-;
+      assert (Hd : (if Nat.eqb d d then Some (tset O (tab_of s d) k0 x) else s d) = Some (tset O (tab_of s d) k0 x))
+        by (now rewrite Nat.eqb_refl);
+      (repeat split;
+       [ exact Hd
+       | unfold tab_of at 1; rewrite Hd; apply tget_tset_same
+       | intros k' Hk; unfold tab_of at 1; rewrite Hd; now apply tget_tset_other
+       | intros d' Hd'; apply Nat.eqb_neq in Hd'; now rewrite Hd'
+       | ]); [now left | now right].
+  Qed.
+
+  (* the first savedir into a directory that does not exist: its table lists that object only, the
+     automatic tag is 1 (either variant) *)
+  Lemma savedir_fresh v (s : dirs) d tag x : s d = None ->
+    exists k, savedir O v s d tag x = (fun d' => if Nat.eqb d' d then Some [(k, x)] else s d', DSaved k) /\
+              (tag = None -> k = TInt 1) /\ (forall k0, tag = Some k0 -> k = k0).
+  Proof.
+    intro H. unfold savedir. rewrite H. destruct tag as [k0|]; cbn.
+    - exists k0. repeat split; [discriminate | intros k1 E; now injection E].
+    - exists (TInt 1). destruct v; repeat split; intros k0 E; discriminate E.
+  Qed.
+
+  (* what a directory holds after any session depends only on the savedir calls into THAT directory *)
+  Lemma dstep_other v (s : dirs) o d : target O o <> d -> fst (dstep O v s o) d = s d.
+  Proof.
+    destruct o as [d0 tag x|d0]; cbn; intro Hd; [|reflexivity].
+    unfold savedir. destruct (match tag with Some k => Some k | None => auto_tag O v _ end); cbn; [|reflexivity].
+    apply Nat.eqb_neq in Hd. rewrite Nat.eqb_sym in Hd. now rewrite Hd.
+  Qed.
+  Lemma dstep_same v (s1 s2 : dirs) o d : target O o = d -> s1 d = s2 d ->
+    fst (dstep O v s1 o) d = fst (dstep O v s2 o) d /\ snd (dstep O v s1 o) = snd (dstep O v s2 o).
+  Proof.
+    destruct o as [d0 tag x|d0]; cbn; intros <- H.
+    - unfold savedir. rewrite H.
+      destruct (match tag with Some k => Some k | None => auto_tag O v _ end); cbn; [|now split].
+      rewrite Nat.eqb_refl. now split.
+    - rewrite H. now split.
+  Qed.
+
+  Lemma drun_cons v (s : dirs) o h :
+    drun O v s (o :: h) = (fst (drun O v (fst (dstep O v s o)) h),
+                           snd (dstep O v s o) :: snd (drun O v (fst (dstep O v s o)) h)).
+  Proof. cbn [drun]. destruct (dstep O v s o) as [s1 r]. cbn [fst snd]. destruct (drun O v s1 h). reflexivity. Qed.
+
+  Lemma directories_independent v h : forall (s1 s2 : dirs) d, s1 d = s2 d ->
+    fst (drun O v s1 h) d = fst (drun O v s2 (filter (fun o => Nat.eqb (target O o) d) h)) d.
+  Proof.
+    induction h as [|o h IH]; intros s1 s2 d H; [exact H|].
+    rewrite drun_cons. cbn [fst filter].
+    destruct (Nat.eqb (target O o) d) eqn:E.
+    - apply Nat.eqb_eq in E. rewrite drun_cons. cbn [fst]. apply IH.
+      now destruct (dstep_same v s1 s2 o d E H).
+    - apply Nat.eqb_neq in E. apply IH. now rewrite dstep_other.
+  Qed.
+
+  (* ---- the repaired automatic tag ---- *)
+  Lemma fold_max_ge zs : forall z0, (z0 <= fold_left Z.max zs z0)%Z /\
+                                     forall z, In z zs -> (z <= fold_left Z.max zs z0)%Z.
+  Proof.
+    induction zs as [|a zs IH]; intro z0; cbn; [split; [lia | tauto]|].
+    destruct (IH (Z.max z0 a)) as [H1 H2]. split; [lia|].
+    intros z [<-|Hz]; [lia | now apply H2].
+  Qed.
+  Lemma tget_int_key (t : table) z y : tget O t (TInt z) = Some y -> In z (int_keys O t).
+  Proof.
+    induction t as [|[k0 y0] t IH]; cbn; [discriminate|].
+    destruct (tag_eqb k0 (TInt z)) eqn:E.
+    - intros _. apply tag_eqb_eq in E. subst k0. unfold int_keys; cbn. now left.
+    - intro H. unfold int_keys; cbn. apply in_or_app. right. now apply IH.
+  Qed.
+
+  (* never fails, and the tag it yields is not a key of the table *)
+  Lemma auto_tag_repaired_free (t : table) :
+    exists z, auto_tag O TagRepaired t = Some (TInt z) /\ tget O t (TInt z) = None.
+  Proof.
+    unfold auto_tag. eexists; split; [reflexivity|].
+    destruct (tget O t (TInt _)) as [y|] eqn:E; [|reflexivity]. exfalso.
+    apply tget_int_key in E. destruct (int_keys O t) as [|z0 zs]; [exact E|].
+    destruct (fold_max_ge zs z0) as [H1 H2]. destruct E as [E|E]; [lia|]. specialize (H2 _ E). lia.
+  Qed.
+
+  (* savedir without tag (repaired): always succeeds, and every (tag, object) of the directory's
+     table before the call is still there after it - no earlier object is lost *)
+  Lemma savedir_auto_repaired (s : dirs) d x :
+    exists s' k, savedir O TagRepaired s d None x = (s', DSaved k) /\
+                 tget O (tab_of s d) k = None /\
+                 tget O (tab_of s' d) k = Some x /\
+                 forall k' y, tget O (tab_of s d) k' = Some y -> tget O (tab_of s' d) k' = Some y.
+  Proof.
+    destruct (auto_tag_repaired_free (tab_of s d)) as (z & Ha & Hfree).
+    assert (Hs : savedir O TagRepaired s d None x =
+                 (fun d' => if Nat.eqb d' d then Some (tset O (tab_of s d) (TInt z) x) else s d', DSaved (TInt z))).
+    { unfold savedir. fold (tab_of s d). now rewrite Ha. }
+    eexists _, _. split; [exact Hs|]. destruct (savedir_spec _ _ _ _ _ _ _ Hs) as (_ & H2 & H3 & _).
+    repeat split; [exact Hfree | exact H2 |].
+    intros k' y Hy. rewrite H3; [exact Hy|].
+    destruct (tag_eqb k' (TInt z)) eqn:E; [|reflexivity]. apply tag_eqb_eq in E. subst k'. congruence.
+  Qed.
+End Dir.
+
+(* pinned: an automatic tag continues from the LAST key of the table, not from the largest: after tags
+   1, 3, 2 the fourth object takes tag 3 and the second one is lost; repaired: it takes tag 4 *)
+Lemma auto_tag_overwrites :
+  snd (drun nat TagPinned (no_dirs nat) [SaveDir 0 None 10; SaveDir 0 (Some (TInt 3)) 11; SaveDir 0 (Some (TInt 2)) 12;
+                                         SaveDir 0 None 13; LoadDir 0])
+  = [DSaved (TInt 1); DSaved (TInt 3); DSaved (TInt 2); DSaved (TInt 3);
+     DLoaded [(TInt 1, 10); (TInt 3, 13); (TInt 2, 12)]] /\
+  snd (drun nat TagRepaired (no_dirs nat) [SaveDir 0 None 10; SaveDir 0 (Some (TInt 3)) 11; SaveDir 0 (Some (TInt 2)) 12;
+                                           SaveDir 0 None 13; LoadDir 0])
+  = [DSaved (TInt 1); DSaved (TInt 3); DSaved (TInt 2); DSaved (TInt 4);
+     DLoaded [(TInt 1, 10); (TInt 3, 11); (TInt 2, 12); (TInt 4, 13)]].
+Proof. split; vm_compute; reflexivity. Qed.
+(* pinned: after a string tag the automatic tag cannot be formed (TypeError), nothing is written;
+   repaired: the object gets tag 1 *)
+Lemma auto_tag_after_string_fails :
+  snd (drun nat TagPinned (no_dirs nat) [SaveDir 0 (Some (TStr 0)) 10; SaveDir 0 None 11; LoadDir 0])
+  = [DSaved (TStr 0); DErr; DLoaded [(TStr 0, 10)]] /\
+  snd (drun nat TagRepaired (no_dirs nat) [SaveDir 0 (Some (TStr 0)) 10; SaveDir 0 None 11; LoadDir 0])
+  = [DSaved (TStr 0); DSaved (TInt 1); DLoaded [(TStr 0, 10); (TInt 1, 11)]].
+Proof. split; vm_compute; reflexivity. Qed.
